@@ -46,10 +46,10 @@ def _get_uses_of(node: ast.AST, scope: ast.AST, source: str) -> Iterable[ast.Nam
     for funcdef in core.walk(scope, (ast.FunctionDef, ast.AsyncFunctionDef)):
         if node in core.walk(funcdef, type(node)):
             continue
-        if any(core.walk(funcdef.args, ast.arg(arg=name))):
+        # A function that binds the name itself, as a parameter, by an assignment, a loop, an import,
+        # except .. as or a match pattern, has a variable of its own by that name
+        if name in tracing.get_defined_names(funcdef) | tracing.get_import_bound_names(funcdef):
             blacklisted_names.update(core.walk(funcdef, ast.Name))
-        for child in core.walk(funcdef, ast.Name(ctx=ast.Store, id=name)):
-            blacklisted_names.update(core.walk(child, ast.Name))
 
     augass_candidates = {
         target
@@ -1006,6 +1006,17 @@ def move_imports_to_toplevel(source: str) -> str:
         imports_movable_to_toplevel.update(
             node for node in toplevel_imports if node.lineno > first_def_lineno
         )
+
+    # At module level the name must be free: a variable of the same name would be overwritten, or
+    # overwrite the module
+    defined_names = tracing.get_defined_names(root)
+    imports_movable_to_toplevel = {
+        node
+        for node in imports_movable_to_toplevel
+        if defined_names.isdisjoint(
+            (alias.asname or alias.name).split(".")[0] for alias in node.names
+        )
+    }
 
     # An import in a try statement is there because it may fail, and has a fallback
     imports_movable_to_toplevel -= {
